@@ -841,6 +841,11 @@ class AutoSerialize:
         # Helper to handle optional torch tensor restoration
         def maybe_tensor(group, key):
             arr = AutoSerialize._read_array_np(group, key)
+            # objects stored through the dill fallback (as in _recursive_load)
+            try:
+                return dill.loads(gzip.decompress(arr.tobytes()))
+            except Exception:
+                pass
             return torch.from_numpy(arr) if group.attrs.get(f"{key}.torch_save") else arr
 
         if ctype in ("list", "tuple"):
